@@ -28,7 +28,12 @@ func planC10(c *Ctx) epochPlan {
 	for _, pol := range []string{"M", "A", "R1"} {
 		for _, mode := range []string{"par", "whole"} {
 			pl.scenarios = append(pl.scenarios, EpochScenario{Seed: "hbu", Cfg: 0, Fit: 4, Policy: pol, Mode: mode, Epochs: 2})
+			// ... and whose champion holds a self-loop gene that is not flagged recurrent
+			pl.scenarios = append(pl.scenarios, EpochScenario{Seed: "hbs", Cfg: 0, Fit: 4, Policy: pol, Mode: mode, Epochs: 2})
 		}
+		// exact zeros beside tiny positive fitness values: the fittest organism is the one with the tiny value
+		pl.scenarios = append(pl.scenarios, EpochScenario{Seed: "hb1", Cfg: 0, Fit: 10, Policy: pol, Mode: "whole", Epochs: 3},
+			EpochScenario{Seed: "hbd3", Cfg: 5, Fit: 10, Policy: pol, Mode: "phase", Epochs: 3})
 	}
 	return pl
 }
